@@ -265,6 +265,12 @@ pub fn clash_cases(first: usize) -> Vec<(String, Vec<(ItemPath, Module)>, usize)
         ("type-named-like-builtin", "pub type u32 { pub a: u64, }\n#[align(8)] pub type Foo { pub x: u32, pub y: u32, }"),
         ("enum-named-like-builtin", "pub enum u8: u32 { A, }\n#[align(4)] pub type Foo { pub x: u8, pub y: [u8; 3], }"),
         ("extern-type-named-like-builtin", "#[size(16), align(8)] extern type u64;\npub type Foo { pub x: u64, }"),
+        ("enum-over-shadowed-builtin", "#[align(2)] pub type u8 { pub x: u16, }\npub enum E: u8 { A = 0, B = 1, }\n#[size(4), align(4)] extern type u32;\npub enum F: u32 { A = 7, }\n#[align(4)] pub type Uses { pub e: E, pub pad: [u8; 3], pub f: F, }"),
+        ("conflict-note-names-collide-across-types", "pub type Base { pub x: u32, }\npub type Ab { #[base] pub a: Base, #[base] pub b: Base, }\npub type AB { #[base] pub a: Base, #[base] pub b: Base, }"),
+        ("type-named-option-next-to-a-singleton", "#[singleton(0x1234)] pub type Foo { pub x: u64, }\n#[align(4)] pub type Option { pub y: u32, }"),
+        ("vfunc-named-underscore", "pub type Foo { vftable { fn _(&self); }, }"),
+        ("impl-fn-named-underscore", "pub type Foo { pub a: u32, }\nimpl Foo { #[address(0x1000)] pub fn _(&self); }"),
+        ("unnamed-second-base", "pub type A { pub x: u64, }\nimpl A { #[address(0x10)] pub fn fa(&self); }\npub type B { pub y: u64, }\nimpl B { #[address(0x20)] pub fn fb(&self); }\npub type D { #[base] pub a: A, #[base] _: B, }"),
         ("zero-case-enum", "pub enum E: u32 { }"),
         ("enum-over-user-type", "pub type S { pub v: u32, }\npub enum E: S { A = 0, }"),
         ("enum-over-float", "pub enum E: f32 { A = 0, }"),
@@ -423,6 +429,7 @@ pub fn run(ctx: &mut Ctx) {
     let sp = special_cases(seed, inputs.len(), ctx.tier.pick(300, 4000));
     ctx.count("dedicated_cases", sp.len() as u64);
     inputs.extend(sp);
+    inputs.extend(crate::gen_special::shadow_programs(inputs.len()));
     let mm = marker_matrix_cases(inputs.len());
     ctx.count("marker_matrix_cases", mm.len() as u64);
     inputs.extend(mm);
